@@ -181,8 +181,12 @@ def r2_counters(run, F):
         gs = mirq.guards(cfg)
         okb = False
         for g in gs:
-            if g["op"] in ("Ge", "Lt") and mirq.src_is_field(g["a"], field):
-                safe = g["false"] if g["op"] == "Ge" else g["true"]
+            op_, a_ = g["op"], g["a"]
+            if not mirq.src_is_field(a_, field) and mirq.src_is_field(g["b"], field):
+                # `len <= i` / `len > i`: the same test with the operands the other way round
+                op_, a_ = {"Le": "Ge", "Gt": "Lt", "Lt": "Gt", "Ge": "Le"}.get(op_, op_), g["b"]
+            if op_ in ("Ge", "Lt") and mirq.src_is_field(a_, field):
+                safe = g["false"] if op_ == "Ge" else g["true"]
                 if all(cfg.dominates(safe, w) for w in wblocks):
                     okb = True
         run.ob("R2-BOUND-BEFORE-WRITE", fn, okb, F.where(b),
@@ -725,8 +729,10 @@ def r13_asserted_capacity(run, F):
             continue
         asserts_on = set()
         for n in walk(b["hir"]):
-            if n.get("k") == "Binary" and n.get("op") == "Lt":
+            if n.get("k") == "Binary" and n.get("op") in ("Lt", "Gt"):
                 l, r = hirq.unwrap_trivial(n["lhs"]), hirq.unwrap_trivial(n["rhs"])
+                if n["op"] == "Gt":
+                    l, r = r, l      # capacity > len
                 if l.get("k") == "MethodCall" and l.get("name") == "len" and r.get("k") == "MethodCall" and r.get("name") == "capacity":
                     fl, fr = hirq.unwrap_trivial(l["recv"]), hirq.unwrap_trivial(r["recv"])
                     if fl.get("k") == "Field" and fr.get("k") == "Field" and fl.get("name") == fr.get("name"):
